@@ -238,16 +238,35 @@ where
       'handshake: loop {
         if self.zmtp_engine.phase == ZmtpPhase::Data
           || self.zmtp_engine.phase == ZmtpPhase::Closed
-          || matches!(self.current_phase, ConnectionPhaseX::Terminating)
+          || matches!(
+            self.current_phase,
+            ConnectionPhaseX::Terminating | ConnectionPhaseX::ShuttingDownStream
+          )
         {
           break 'handshake;
         }
 
-        let read_result = tokio::time::timeout_at(
-          hs_deadline,
-          hs_read_half.read_buf(&mut self.handshake_read_buf),
-        )
-        .await;
+        // The mailbox is left alone until the handshake is over, but a closing socket or a
+        // terminating context must not have to wait for a peer that never answers.
+        let read_result = tokio::select! {
+          biased;
+          maybe_event = self.system_event_receiver.recv() => {
+            match maybe_event {
+              Ok(event) => self.process_system_event(event).await,
+              Err(broadcast::error::RecvError::Lagged(n)) => {
+                self.set_fatal_error(ZmqError::Internal(format!("System event lagged by {}", n))).await;
+              }
+              Err(broadcast::error::RecvError::Closed) => {
+                self.set_fatal_error(ZmqError::Internal("System event channel closed".into())).await;
+              }
+            }
+            continue 'handshake;
+          }
+          r = tokio::time::timeout_at(
+            hs_deadline,
+            hs_read_half.read_buf(&mut self.handshake_read_buf),
+          ) => r,
+        };
 
         match read_result {
           Err(_elapsed) => {
